@@ -27,52 +27,66 @@ def env_header():
     for ci in (0, 1):
         simple = [n for n in NG.BASE_ORDER if n not in ("L", "U")]
         for n in simple:
-            out.append(f"Definition B{ci}_{n} := norm C{ci} (envl []) [] {NG.csch(NG.BASE[n])} {cstr('/components/schemas/' + n)}.")
+            out.append(f"Definition B{ci}_{n} := norm C{ci} (envl []) [] true {NG.csch(NG.BASE[n])} {cstr('/components/schemas/' + n)}.")
         out.append(f"Definition ENVa{ci} := envl [" + "; ".join(f"({cstr(REF + n)}, B{ci}_{n})" for n in simple) + "].")
         for n in ("L", "U"):
-            out.append(f"Definition B{ci}_{n} := norm C{ci} ENVa{ci} [] {NG.csch(NG.BASE[n])} {cstr('/components/schemas/' + n)}.")
+            out.append(f"Definition B{ci}_{n} := norm C{ci} ENVa{ci} [] true {NG.csch(NG.BASE[n])} {cstr('/components/schemas/' + n)}.")
         out.append(f"Definition ENV{ci} := envl [" + "; ".join(f"({cstr(REF + n)}, B{ci}_{n})" for n in NG.BASE_ORDER) + "].")
     return "\n".join(out) + "\n"
 
 
 # ------------------------------------------------------------------ stage B workers
 def b_work(args):
-    """one stage-B document: returns terms (as strings) + case descriptions"""
+    """one stage-B document: returns terms (as strings) + case descriptions.
+    Positions: root (components.schemas.<C>), prop (attribute of a holder model), param (Parameter.schema), media (MediaType.schema)."""
     seed, n_sites, literal = args
     rng = random.Random(seed)
     from openapi_python_client import schema as oai
     from openapi_python_client.parser.properties import build_schemas, Schemas
     sg = NG.SGen(rng, literal=literal)
     comps = dict(copy.deepcopy(NG.BASE))
-    sites = []
+    sites, params, medias = [], [], {}
     for i in range(n_sites):
         s = sg.schema(rng.randint(1, 3))
-        if rng.random() < 0.25 and "$ref" not in s:
+        r = rng.random()
+        if r < 0.22 and "$ref" not in s:
             cname = f"C{i}"
             comps[cname] = s
             sites.append(("root", cname, None, s))
+        elif r < 0.32:
+            params.append({"name": f"q{i}", "in": "query", "schema": s})
+            sites.append(("param", len(params) - 1, None, s))
+        elif r < 0.42:
+            medias[f"application/x{i}+json"] = {"schema": s}
+            sites.append(("media", f"application/x{i}+json", None, s))
         else:
             pn = rng.choice(NG.PNAMES)
             hname = f"H{i}"
             comps[hname] = {"type": "object", "properties": {pn: s}, **({"required": [pn]} if rng.random() < 0.5 else {})}
             sites.append(("prop", hname, pn, s))
-    doc = G.doc_with(comps)
+    paths = {"/x": {"get": {"operationId": "opx", "parameters": params, "responses": {"200": {"description": "d", "content": medias}}}}}
+    doc = G.doc_with(comps, paths=paths)
     out = {"seed": seed, "literal": literal, "pre": [], "tree": [], "error": None}
     try:
-        # B1: validators
+        o = oai.OpenAPI.model_validate(copy.deepcopy(doc))
+        # B1: validators, at the position the schema really sits
+        op = o.paths["/x"].get
         for kind, cn, pn, s in sites:
             if "$ref" in s:
                 continue
-            try:
-                v = oai.Schema.model_validate(copy.deepcopy(s))
-            except Exception as e:  # a schema the validator rejects is outside pre's domain
-                out["pre"].append({"schema": s, "skip": repr(e)[:200]})
-                continue
-            out["pre"].append({"schema": s, "term": f"sch_eqb (pre {NG.csch(s)}) {NG.csch_validated(v)}"})
+            if kind == "root":
+                v, top = o.components.schemas[cn], True
+            elif kind == "prop":
+                v, top = o.components.schemas[cn].properties[pn], False
+            elif kind == "param":
+                v, top = op.parameters[cn].param_schema, True
+            else:
+                v, top = op.responses["200"].content[cn].media_type_schema, True
+            out["pre"].append({"schema": s, "position": kind, "term": f"sch_eqb (pre_at {cbool(top)} {NG.csch(s)}) {NG.csch_validated(v)}",
+                               "obs": NG.csch_validated(v), "model": f"pre_at {cbool(top)} {NG.csch(s)}"})
         # B2: trees
         cfg = {"literal_enums": True} if literal else None
         config = impl.make_config("/tmp/none.json", "/tmp/none_out", cfg=cfg)
-        o = oai.OpenAPI.model_validate(copy.deepcopy(doc))
         with impl.contextlib.redirect_stdout(io.StringIO()):
             schemas = build_schemas(components=o.components.schemas, schemas=Schemas(), config=config)
         by_ref = schemas.classes_by_reference
@@ -80,20 +94,20 @@ def b_work(args):
         for kind, cn, pn, s in sites:
             if kind == "root":
                 p = by_ref.get("/components/schemas/" + cn)
-                obs = NG.ctree(p)
-                term = f"tree_eqb (norm C{ci} ENV{ci} [] {NG.csch(s)} {cstr('/components/schemas/' + cn)}) {obs}"
-                name, parent = "/components/schemas/" + cn, ""
-            else:
+                name, parent, top = "/components/schemas/" + cn, "", True
+            elif kind == "prop":
                 h = by_ref.get("/components/schemas/" + cn)
                 p = None
                 if h is not None and type(h).__name__ == "ModelProperty" and h.required_properties is not None:
                     ps = list(h.required_properties) + list(h.optional_properties)
                     p = ps[0] if len(ps) == 1 else None
-                obs = NG.ctree(p)
-                term = f"tree_eqb (norm C{ci} ENV{ci} {cstr(cn)} {NG.csch(s)} {cstr(pn)}) {obs}"
-                name, parent = pn, cn
-            out["tree"].append({"schema": s, "position": kind, "name": name, "parent": parent, "literal": literal, "term": term, "obs": obs,
-                                "model": f"norm C{ci} ENV{ci} {cstr(parent)} {NG.csch(s)} {cstr(name)}"})
+                name, parent, top = pn, cn, False
+            else:
+                continue
+            obs = NG.ctree(p)
+            model = f"norm C{ci} ENV{ci} {cstr(parent)} {cbool(top)} {NG.csch(s)} {cstr(name)}"
+            out["tree"].append({"schema": s, "position": kind, "name": name, "parent": parent, "literal": literal, "term": f"tree_eqb ({model}) {obs}",
+                                "obs": obs, "model": model})
     except BaseException as e:  # noqa
         import traceback
         out["error"] = repr(e) + traceback.format_exc()[-1200:]
@@ -217,7 +231,7 @@ def stage_b(run, tier, rng):
         for c in r["pre"]:
             if "term" in c:
                 terms.append(c["term"]); meta.append(("pre", c))
-                run.note_case({"stage": "B1", "schema": c["schema"]}, nontrivial=bool(c["schema"].get("nullable")), kind="B1-validator")
+                run.note_case({"stage": "B1", "schema": c["schema"], "position": c["position"]}, nontrivial=bool(c["schema"].get("nullable")), kind="B1-validator-" + c["position"])
         for c in r["tree"]:
             terms.append(c["term"]); meta.append(("tree", c))
             run.note_case({"stage": "B2", "schema": c["schema"], "position": c["position"], "name": c["name"], "literal": c["literal"]},
@@ -236,8 +250,8 @@ def stage_b(run, tier, rng):
                                              "literal_enums": c["literal"], "impl": c["obs"][:1500], "model": mv[-1500:],
                                              "note": "the parser no longer builds the property tree Norm.norm computes (for which the C17 equivalences are proved)"})
         elif kind == "pre":
-            mv = coq_eval(hdr, "pre " + NG.csch(c["schema"]))
-            run.violation("correspondence", {"what": "schema validators (handle_nullable)", "schema": c["schema"], "impl": c["term"].split(") (", 1)[-1][:1200], "model": mv[-1200:]})
+            mv = coq_eval(hdr, c["model"])
+            run.violation("correspondence", {"what": "schema validators (handle_nullable)", "schema": c["schema"], "position": c["position"], "impl": c["obs"][:1200], "model": mv[-1200:]})
         else:
             run.violation("correspondence", {"what": "handle_exclusive_min_max", **c, "term": terms[i]})
     return len(terms), len(bad)
